@@ -334,6 +334,12 @@ def check_property(prop: str, tier: str, seed: int) -> int:
     wall = time.time() - t0
     # known findings that are listed but did not fire: nothing is printed (they suppress nothing)
     _seen_kf = set()
+    # findings demonstrated on the real code that no obligation of this family can express (e.g. a dropped future):
+    # listed with match {"always": true}; they suppress nothing (no obligation fails because of them) and are reported on
+    # every run of their property
+    for kf in known:
+        if kf.get("status") == "known" and kf.get("property") == prop and kf.get("match", {}).get("always") and not os.environ.get("VERIF_BITE_RUN"):
+            known_hits.append({"finding": kf, "entry": {"obligation": "%s/unprobed/%s" % (prop, kf.get("id", "?"))}})
     for kh in known_hits:
         _t = kh["finding"].get("text", kh["entry"]["obligation"])
         if _t in _seen_kf:
